@@ -230,7 +230,7 @@ def opNames (d : DF) : Op → Except RefErr (List String)
   | .select items => do return (← items.mapM (itemNames d.names)).flatten
   | .withColumn name _ => .ok (if d.names.contains name then d.names else d.names ++ [name])
   | .filter _ => .ok d.names
-  | .drop cols => .ok (dropCols d.names (cols.filter fun c => d.names.count c == 1) []).1
+  | .drop cols => .ok (dropCols d.names cols []).1      -- REPAIRED: a name that several columns carry drops all of them
   | .rename old new => .ok (d.names.map fun n => if n == old then new else n)
   | .join how on other => .ok (joinNames how d.names other.names on)
   | .crossJoin other => .ok (d.names ++ other.names)
@@ -278,7 +278,7 @@ def opRows (d : DF) : Op → Except RefErr (List Row)
       | .ok p => .ok p.2
       | .error _ => .error .typeError
   | .filter e => match filterM e d.rows with | .ok rs => .ok rs | .error _ => .error .typeError
-  | .drop cols => .ok (dropCols d.names (cols.filter fun c => d.names.count c == 1) d.rows).2
+  | .drop cols => .ok (dropCols d.names cols d.rows).2
   | .rename _ _ => .ok d.rows
   | .join how on other => do
       for c in on do
